@@ -21,9 +21,12 @@ with tempfile.TemporaryDirectory() as td:
     for tc in ET.parse(junit).getroot().iter("testcase"):
         if not any(ch.tag in ("failure", "error", "skipped") for ch in tc):
             passed.add("%s::%s" % (tc.get("classname"), tc.get("name")))
+import shutil
 for f in os.listdir(repo):
     if f.startswith(".coverage"):
         os.remove(os.path.join(repo, f))
+# hypothesis' example database would replay a once-found flaky failure in every later run
+shutil.rmtree(os.path.join(repo, ".hypothesis"), ignore_errors=True)
 want = set(base["stable_pass"])
 missing = sorted(want - passed)
 print("\n".join(tail))
